@@ -25,7 +25,13 @@ class PDDLTokenizer:
                 self.pddl_file_content = pddl_file.readlines()
 
         else:
-            self.pddl_file_content = pddl_str.replace("\t", " ").split("\n")
+            # the lines of the text, with the same line ends that reading a file recognises (LF, CR LF and a bare CR).
+            self.pddl_file_content = (
+                pddl_str.replace("\t", " ")
+                .replace("\r\n", "\n")
+                .replace("\r", "\n")
+                .split("\n")
+            )
 
     def _is_comment_line(self, line: str) -> bool:
         """Indicates whither or not a line is a comment line
